@@ -93,7 +93,7 @@ RUNNABLE_WRITERS = ['write_fistr', 'write_ucd', 'write_obj', 'write_vtk']
 BASELINE = lib.COQ / 'C19' / 'gen_baseline'
 REINDEX_KINDS = ['ids_roll', 'ids_reverse', 'update_overwrite', 'update_add']
 DERIVS = {'to_surface': SOLID, 'to_polyhedron': SOLID, 'to_facets': SOLID, 'to_first_order': ALL,
-          'resolve_degeneracy': ('hex',)}
+          'resolve_degeneracy': SOLID}
 
 
 # ------------------------------------------------------------------ meshes
@@ -374,6 +374,8 @@ def problems(hist, res):
                     out.append((i, 'writer-mutates', rec['changed']))
             elif rec.get('effect_equal') is False:
                 out.append((i, 'modifier-differs', {'raised': rec.get('raised'), 'ref_raised': rec.get('ref_raised')}))
+            if not rec['e'].startswith('write_') and rec.get('changed_other'):
+                out.append((i, 'modifier-changes-other-object', rec['changed_other']))
         elif rec['op'] == 'derive':
             if rec.get('equal') is False:
                 out.append((i, 'value', {'expected': rec.get('expected'), 'observed': rec.get('observed')}))
@@ -409,8 +411,21 @@ def signature_of(hist, cfgq, res=None):
         raised = [r.get('raised') for h, r in zip(hist, res['ops']) if h['op'] == 'effect' and r.get('raised')]
         if raised and 'effect' in sig:
             sig['effect_raised'] = raised[-1]
-        # a query that changed protected data: say which
         last = res['ops'][-1]
+        # a modifier on one object changed another one (derived from it / its parent)
+        if hist[-1]['op'] == 'effect' and last.get('changed_other') and not hist[-1]['e'].startswith('write_'):
+            dv = [h for h in hist if h['op'] == 'derive' and hist[-1]['o'] in (h['o'], h['o2'])]
+            if dv:
+                sig = {'kind': 'modifier-reaches-other-object', 'deriv': dv[-1]['d'], 'effect': hist[-1]['e'],
+                       'modified': 'child' if hist[-1]['o'] == dv[-1]['o2'] else 'parent'}
+        # nodal_data['NODE'] no longer IS the node table (a modifier replaced one of them) and a
+        # later modification of the node table is not seen by a query that reads the variable
+        ops_ = [h for h in hist if h['op'] != 'new']
+        if len(ops_) == 3 and ops_[0]['op'] == ops_[1]['op'] == 'effect' and ops_[2]['op'] == 'query' \
+                and ops_[0]['o'] == ops_[1]['o'] == ops_[2]['o'] and last.get('node_detached') \
+                and ops_[1]['e'] in ('reindex_nodes', 'assign_nodes', 'rotation', 'translation'):
+            sig = {'kind': 'node-variable-detached', 'by': ops_[0]['e'], 'effect': ops_[1]['e']}
+        # a query that changed protected data: say which
         if hist[-1]['op'] in ('query', 'derive') and last.get('changed'):
             sig = {'kind': 'query-overwrites-user-variable', 'query': hist[-1].get('q') or hist[-1].get('d'),
                    'variables': sorted({c.split(':', 1)[1] for c in last['changed']})}
@@ -484,6 +499,13 @@ def signature_of0(hist, cfgq):
         return {'kind': 'shared-table-modified', 'deriv': d['d'], 'effect': ops[2]['e'],
                 'modified': 'child' if ops[2]['o'] == d['o2'] else 'parent',
                 'queried': 'child' if last['o'] == d['o2'] else 'parent'}
+    if last['op'] == 'query' and len(ops) == 4 and ops[0]['op'] == 'query' and ops[1]['op'] == 'derive' \
+            and ops[2]['op'] == 'effect' and ops[0]['o'] == last['o'] and ops[2]['o'] != last['o'] \
+            and {ops[2]['o'], last['o']} == {ops[1]['o'], ops[1]['o2']}:
+        d = ops[1]
+        return {'kind': 'shared-table-modified', 'deriv': d['d'], 'effect': ops[2]['e'],
+                'modified': 'child' if ops[2]['o'] == d['o2'] else 'parent',
+                'queried': 'child' if last['o'] == d['o2'] else 'parent'}
     if last['op'] == 'query' and len(ops) == 3 and ops[0]['op'] == 'derive' and ops[1]['op'] == 'effect':
         d = ops[0]
         return {'kind': 'shared-table-modified', 'deriv': d['d'], 'effect': ops[1]['e'],
@@ -500,6 +522,11 @@ def signature_of0(hist, cfgq):
             return {'kind': 'stale-derive', 'deriv': last['d'], 'effect': ops[0]['e']}
         if len(ops) == 2 and ops[0]['op'] == 'query':
             return {'kind': 'derive-after-query', 'deriv': last['d'], 'first': ops[0]['q']}
+    if last['op'] == 'effect' and not last['e'].startswith('write_') and len(ops) in (2, 3) and \
+            sum(1 for x in ops if x['op'] == 'derive') == 1 and all(x['op'] != 'effect' for x in ops[:-1]):
+        d = [x for x in ops if x['op'] == 'derive'][0]
+        return {'kind': 'modifier-reaches-other-object', 'deriv': d['d'], 'effect': last['e'],
+                'modified': 'child' if last['o'] == d['o2'] else 'parent'}
     if last['op'] == 'effect' and not last['e'].startswith('write_') and len(ops) == 2:
         return {'kind': 'modifier-differs', 'effect': last['e'], 'after': names[0]}
     if last['op'] == 'effect' and last['e'].startswith('write_') and len(ops) == 2 and ops[0]['op'] == 'derive':
@@ -1028,6 +1055,43 @@ def main(ctx):
             batch.append(('writers', None, [{'op': 'new', 'o': 0, 'mesh': m}, e_op(0, w)]
                           + [q_op(0, q, dict(cat[q][1][1]) if len(cat[q][1]) > 1 else {}) for q in qs]
                           + [e_op(0, w)]))
+    # derived objects and in-place modifiers: a modifier on the child must not reach the parent
+    # and vice versa (shared element blocks / coordinate buffers), and what was memoised for the
+    # other object stays right:  [q(P); derive; modifier(C); q(P)]  and  [derive; q(C); modifier(P); q(C)]
+    cross_q = {'tet': ('calculate_element_volumes', {'raise_negative_volume': False}),
+               'hex': ('calculate_element_volumes', {'raise_negative_volume': False, 'mode': 'linear'}),
+               'prism': ('calculate_element_volumes', {'raise_negative_volume': False})}
+    for kind in ('tet', 'hex', 'prism'):
+        for d in sorted(DERIVS):
+            if kind not in DERIVS[d]:
+                continue
+            for e in modifiers:
+                args = {'reset': True} if e in ('rotation', 'translation') else \
+                    ({'kind': 'same_array'} if e == 'assign_connectivity' else
+                     ({'kind': 'update_overwrite'} if e == 'reindex_nodes' else {}))
+                feat = ['unref'] + (['inverted'] if kind in ('tet', 'prism') else [])
+                m = gen_mesh(ctx.rng, kind, feat)
+                q, kw = cross_q[kind]
+                dv = {'op': 'derive', 'o': 0, 'o2': 1, 'd': d}
+                batch.append(('cross', None, [{'op': 'new', 'o': 0, 'mesh': m}, q_op(0, q, kw), dv,
+                                              e_op(1, e, args), q_op(0, q, kw)]))
+                qc = q if d not in ('to_surface', 'to_facets') else 'calculate_element_areas'
+                kwc = kw if qc == q else {'return_abs_area': False}
+                batch.append(('cross', None, [{'op': 'new', 'o': 0, 'mesh': m}, dv, q_op(1, qc, kwc),
+                                              e_op(0, e, args), q_op(1, qc, kwc)]))
+    # two modifiers in a row, the first of which rebuilds the tables (remove_useless_nodes), then
+    # the queries that read the node table through the variable table
+    if 'reindex_nodes' in modifiers:
+        for nk, kind in enumerate(('tet', 'quad', 'hex', 'prism')):
+            for nq, (q, kw) in enumerate((('convert_nodal2elemental', {'data': 'NODE', 'calc_average': True}),
+                                          ('calculate_spatial_gradient_adjacency_matrices', {}),
+                                          ('calculate_frame_tensor_adjs', {}))):
+                if q not in cat or kind not in cat[q][0]:
+                    continue
+                knd = REINDEX_KINDS[(nk + nq) % len(REINDEX_KINDS)]
+                batch.append(('detached', None, [{'op': 'new', 'o': 0, 'mesh': gen_mesh(ctx.rng, kind, ['unref'])},
+                                                 e_op(0, 'remove_useless_nodes'),
+                                                 e_op(0, 'reindex_nodes', {'kind': knd}), q_op(0, q, kw)]))
     # a modifier that raises midway (a nodal variable that lacks some node ids) followed by queries
     memo_q = [q for q, c in cfgq.items() if (c['lru'] is not None or c['slot'] is not None) and q in cat]
     for q in sorted(memo_q):
@@ -1089,7 +1153,7 @@ def main(ctx):
             ctx.corr['disagreements'] += 1
             if tag == 'witness':
                 payload.setdefault('reproduced', []).append(kind)
-            if len([h for h in hist[:i + 1] if h['op'] != 'new']) <= 2 or tag == 'witness':
+            if len([h for h in hist[:i + 1] if h['op'] != 'new']) <= 2 or tag in ('witness', 'corpus', 'detached', 'cross'):
                 sig = signature_of(hist[:i + 1], cfgq, {'ops': res['ops'][:i + 1]} if 'ops' in res else None)
                 if sig['kind'] != 'other':
                     key = json.dumps(sig, sort_keys=True)
